@@ -117,8 +117,52 @@ func checkOp(c opCase) (h.Info, error) {
 		if err != nil {
 			return info, fmt.Errorf("[%s copy] %w", name, err)
 		}
+		if err := checkIndependence(cv, c); err != nil {
+			return info, fmt.Errorf("[%s copy] %w", name, err)
+		}
 	}
 	return info, nil
+}
+
+// checkIndependence: a caller may do what it likes with returned coordinates; that must change
+// neither the operands nor the curve parameters nor later results.
+func checkIndependence(cv stdelliptic.Curve, c opCase) error {
+	if c.Op == "oncurve" {
+		return nil
+	}
+	p := pointOf(c.K1)
+	px, py := p.XY()
+	a1, a2 := new(big.Int).Set(px), new(big.Int).Set(py)
+	zx, zy := new(big.Int), new(big.Int)
+	var outs []*big.Int
+	x, y := cv.Add(a1, a2, zx, zy) // P + O
+	outs = append(outs, x, y)
+	x, y = cv.Add(zx, zy, a1, a2) // O + P
+	outs = append(outs, x, y)
+	x, y = cv.ScalarMult(a1, a2, []byte{0, 0, 1})
+	outs = append(outs, x, y)
+	x, y = cv.ScalarBaseMult([]byte{1})
+	outs = append(outs, x, y)
+	x, y = cv.ScalarBaseMult(append([]byte{}, c.Scalar...))
+	outs = append(outs, x, y)
+	x, y = cv.Double(a1, a2)
+	outs = append(outs, x, y)
+	for _, o := range outs {
+		if o != nil {
+			o.SetInt64(12345) // scribble
+		}
+	}
+	if a1.Cmp(px) != 0 || a2.Cmp(py) != 0 || zx.Sign() != 0 || zy.Sign() != 0 {
+		return fmt.Errorf("writing into returned coordinates changed an operand (results alias their inputs) for P=%s", fmtPt(p))
+	}
+	if cv.Params().Gx.Cmp(K.Gx) != 0 || cv.Params().Gy.Cmp(K.Gy) != 0 || cv.Params().P.Cmp(K.P) != 0 || cv.Params().N.Cmp(K.N) != 0 {
+		return fmt.Errorf("writing into returned coordinates changed the curve parameters (results alias Params())")
+	}
+	gx, gy := cv.ScalarBaseMult([]byte{2})
+	if g, err := got(gx, gy); err != nil || !g.Equal(K.BaseMul(big.NewInt(2))) {
+		return fmt.Errorf("ScalarBaseMult(2) is wrong after a caller wrote into earlier results")
+	}
+	return nil
 }
 
 func checkOn(name string, cv stdelliptic.Curve, c opCase) (h.Info, error) {
